@@ -58,7 +58,7 @@ SResetState(e) ==
               [f \in {Lit(v, b) : v \in 0 .. (e.n0 - 1), b \in BOOLEAN} |->
                    CHOOSE p \in {<<"l", v, c>> : v \in 0 .. (e.n0 - 1), c \in {0, 1}} : Lit(p[2], p[3] = 1) = f]
   /\ contents' = {}
-  /\ Req("C14", NoRepeatedLeaf(e.vtree) /\ VVars(e.vtree) = 0 .. (e.n0 - 1))
+  /\ Req("C14", NoRepeatedLeaf(e.vtree) /\ VVars(e.vtree) \subseteq 0 .. (e.n0 - 1))      \* label gaps are legal
 
 D(e, i) == den[e.a[i]]
 SSem(e) ==
